@@ -553,7 +553,7 @@ class CallMixin:
                 c = self.resolve_user(attr, root)
                 if c is not None:
                     args, kw = self.args_of(node, st)
-                    return self.call_user(c, args, kw, node, st, None)
+                    return self.call_through_class(c, args, kw, node, st)
         if attr == "__new__" and isinstance(f.value, ast.Name):
             # cls.__new__(cls): a fresh object of the class the contract declares as the result's shape (no field set yet)
             rt = T.parse_type(self.contract_stack[-1].returns) if self.contract_stack[-1].returns else None
@@ -590,7 +590,7 @@ class CallMixin:
             if c is None:
                 self.unsupported(node, "static method %s.%s has no contract" % (cname, attr))
             args, kw = self.args_of(node, st)
-            return self.call_user(c, args, kw, node, st, None)
+            return self.call_through_class(c, args, kw, node, st)
         if isinstance(recv, VEnum):
             c = self.resolve_user(attr, recv.ty.ename)
             if c is None:
@@ -609,6 +609,16 @@ class CallMixin:
         if isinstance(recv, VStr):
             return self.str_method(recv, attr, f, node, st)
         self.unsupported(node, "method .%s on %s" % (attr, recv.ty))
+
+    def call_through_class(self, c, args, kw, node, st):
+        fd, _, _ = self.callee_def(c)
+        if fd.args.args and fd.args.args[0].arg == "self" and node.args and \
+                isinstance(node.args[0], (ast.Name, ast.Attribute, ast.Subscript)):
+            # Base.method(self, ...): an instance method called through the class; the explicit first argument is the receiver
+            node2 = ast.copy_location(ast.Call(func=node.func, args=node.args[1:], keywords=node.keywords), node)
+            node2._explicit_recv = node.args[0]
+            return self.call_user(c, args, kw, node2, st, node.args[0])
+        return self.call_user(c, args, kw, node, st, None)
 
     def math_call(self, attr, node, st):
         args, kw = self.args_of(node, st)
@@ -1103,7 +1113,7 @@ class CallMixin:
         roots = sorted({m.split(".")[0] for m in c.modifies})
         if roots:
             params = [a.arg for a in fdef.args.args]
-            recv = node.func.value if isinstance(node.func, ast.Attribute) else None
+            recv = getattr(node, "_explicit_recv", None) or (node.func.value if isinstance(node.func, ast.Attribute) else None)
             an = self.arg_nodes(fdef, params, node, recv)
             for p in roots:
                 if p not in bound or not isinstance(bound[p], (VList, VDict, VSet, VRec)):
